@@ -32,7 +32,7 @@ func init() {
 		},
 		Cases: func(tier string) int {
 			if tier == "thorough" {
-				return 100000
+				return 1000000
 			}
 			return 5000
 		},
